@@ -80,6 +80,8 @@ pub struct QCase {
     pub bg: Option<[u8; 4]>,
     /// quantise a crop of the image surrounded by a 12-pixel wide poison border
     pub crop: bool,
+    /// the pixels are stored column by column; the image is the transposed view of that buffer
+    pub transposed: bool,
 }
 
 impl QCase {
@@ -99,6 +101,7 @@ impl QCase {
             "size": self.size, "dither": self.dither,
             "bg": self.bg.map(|b| b.to_vec()),
             "crop": self.crop,
+            "transposed": self.transposed,
         })
     }
     fn from_json(v: &Value) -> Result<Self, String> {
@@ -121,9 +124,15 @@ impl QCase {
             dither: v["dither"].as_bool().ok_or("dither")?,
             bg: if v["bg"].is_null() { None } else { Some(px(&v["bg"])?) },
             crop: v["crop"].as_bool().unwrap_or(false),
+            transposed: v["transposed"].as_bool().unwrap_or(false),
         })
     }
     fn image(&self) -> Image {
+        if self.transposed {
+            let (w, px) = (self.w, &self.pixels);
+            let stored = SurfaceOwned::new_with(Size::new(self.w, self.h), |p| rgba(px[p.col * w + p.row]));
+            return Image::new(surf_n_term::Surface::transpose(stored));
+        }
         if !self.crop {
             let (w, px) = (self.w, &self.pixels);
             Image::from(SurfaceOwned::new_with(Size::new(self.h, self.w), |p| rgba(px[p.row * w + p.col])))
@@ -469,7 +478,7 @@ fn sweep_small(sh: &Shared, tier: Tier) -> u64 {
                     for size in &sizes {
                         for dither in [false, true] {
                             for bg in &BACKGROUNDS[..nbg] {
-                                let c = QCase { h, w, pixels: pixels.clone(), size: *size, dither, bg: *bg, crop };
+                                let c = QCase { h, w, pixels: pixels.clone(), size: *size, dither, bg: *bg, crop, transposed: false };
                                 sh.quant(&c, &mut l);
                             }
                         }
@@ -510,8 +519,12 @@ fn sweep_alpha(sh: &Shared) -> u64 {
                 for size in [2usize, 16] {
                     for dither in [false, true] {
                         for bg in &BACKGROUNDS {
-                            let c = QCase { h, w, pixels: pixels.clone(), size, dither, bg: *bg, crop: false };
+                            let c = QCase { h, w, pixels: pixels.clone(), size, dither, bg: *bg, crop: false, transposed: false };
                             sh.quant(&c, &mut l);
+                            if h > 1 && w > 1 {
+                                let c = QCase { transposed: true, ..c };
+                                sh.quant(&c, &mut l);
+                            }
                         }
                     }
                 }
@@ -580,14 +593,14 @@ fn sweep_multiset(sh: &Shared, radix: u64, full: bool, nbg: usize, only_new: boo
                     }
                     for dither in [false, true] {
                         for bg in &BACKGROUNDS[..nbg] {
-                            let c = QCase { h, w, pixels: pixels.clone(), size, dither, bg: *bg, crop: false };
+                            let c = QCase { h, w, pixels: pixels.clone(), size, dither, bg: *bg, crop: false, transposed: false };
                             sh.quant(&c, &mut l);
                         }
                     }
                 }
             } else {
                 for size in [8usize, 9, 10] {
-                    let c = QCase { h, w, pixels: pixels.clone(), size, dither: false, bg: None, crop: false };
+                    let c = QCase { h, w, pixels: pixels.clone(), size, dither: false, bg: None, crop: false, transposed: false };
                     sh.quant(&c, &mut l);
                 }
             }
@@ -612,7 +625,7 @@ fn sweep_large(sh: &Shared) -> u64 {
                         for dither in [false, true] {
                             for bg in &BACKGROUNDS[..2] {
                                 for crop in [false, true] {
-                                    cases.push(QCase { h, w, pixels: pixels.clone(), size, dither, bg: *bg, crop });
+                                    cases.push(QCase { h, w, pixels: pixels.clone(), size, dither, bg: *bg, crop, transposed: false });
                                 }
                             }
                         }
@@ -632,7 +645,7 @@ fn sweep_large(sh: &Shared) -> u64 {
                     pixels.push([0, 0, 0, 255]);
                 }
                 for dither in [false, true] {
-                    cases.push(QCase { h: 1, w: pixels.len(), pixels: pixels.clone(), size: 512, dither, bg: None, crop: false });
+                    cases.push(QCase { h: 1, w: pixels.len(), pixels: pixels.clone(), size: 512, dither, bg: None, crop: false, transposed: false });
                 }
             }
         }
@@ -640,11 +653,11 @@ fn sweep_large(sh: &Shared) -> u64 {
     // more distinct colours than a 16-bit index can address, all of them requested: exact reproduction
     for n in [65_535usize, 65_536, 65_537, 67_584] {
         let pixels: Vec<[u8; 4]> = (0..n).map(|i| [(i % 256) as u8, (i / 256 % 256) as u8, (i / 65_536 * 85 + 3) as u8, 255]).collect();
-        cases.push(QCase { h: 1, w: n, pixels, size: 70_000, dither: false, bg: None, crop: false });
+        cases.push(QCase { h: 1, w: n, pixels, size: 70_000, dither: false, bg: None, crop: false, transposed: false });
     }
     for n in [132_100usize, 132_107, 132_111, 197_379, 197_383] {
         let pixels = vec![[254u8, 254, 254, 255]; n];
-        cases.push(QCase { h: 1, w: n, pixels, size: 1024, dither: false, bg: None, crop: false });
+        cases.push(QCase { h: 1, w: n, pixels, size: 1024, dither: false, bg: None, crop: false, transposed: false });
     }
     let n = cases.len() as u64;
     cases.par_iter().for_each(|c| {
